@@ -294,7 +294,9 @@ pub fn judge(c: &Case<'_>) -> Vec<Alarm> {
                 negative = true;
                 break;
             }
-            if negative && !via_insecure_link {
+            // a forged link already reported under (i) explains whatever follows it
+            let forged_link_reported = alarms.iter().any(|a| a.rule == "secure-not-genuine");
+            if negative && !via_insecure_link && !forged_link_reported {
                 let zi = t.responsible(&n, c.qtype);
                 let st = t.zones[zi].status;
                 let secure_denial = obs.recs.iter().any(|(r, p)| r.sec == SEC_NS && matches!(r.rtype, chain::T_NSEC | chain::T_NSEC3) && *p == Proof::Secure);
